@@ -145,7 +145,57 @@ class TU:
                 if not self._inline_one(P):
                     break
 
+    def _inline_iife(self, P):
+        """`[&]{ ... }();` as a statement of its own, or `return [&]() -> R { ... }();`: a lambda written and invoked in place, without
+        parameters, capturing by reference (or `this`), is its body written as a block - the body's returns are returns of the writer in
+        the second form."""
+        pm = None
+        for b, blk in list(P.blocks.items()):
+            for i, e in enumerate(blk['elems']):
+                n = e.get('n')
+                if e['k'] != 'stmt' or not n or n not in P.nodes:
+                    continue
+                o = P.nodes[n]
+                if o['cls'] != 'CXXOperatorCallExpr' or o.get('op') != '()' or o.get('obj') is None or len(P.call_args(n)) != 0:
+                    continue
+                lx = P.value_source(o['obj'])
+                if P.nodes[lx]['cls'] != 'LambdaExpr':
+                    continue
+                L = self.by_id.get(P.nodes[lx].get('fid'))
+                if L is None or L.params or L.parent_id != P.id or L.body is None:
+                    continue
+                if any(not (c.get('byref') or c.get('this')) for c in P.nodes[lx].get('captures', [])):
+                    continue
+                valret = any(x['cls'] == 'ReturnStmt' and x.get('kids') for x in L.nodes.values())
+                pm = pm or P.parent_map()
+                q = pm.get(n)
+                chain = []
+                while q is not None and P.nodes[q]['cls'] in ('ExprWithCleanups', 'ParenExpr', 'ImplicitCastExpr', 'MaterializeTemporaryExpr', 'CXXBindTemporaryExpr'):
+                    chain.append(q)
+                    q = pm.get(q)
+                if q is None:
+                    continue
+                qc = P.nodes[q]['cls']
+                if qc == 'CompoundStmt' and not valret:
+                    outer_ret = None
+                elif qc == 'ReturnStmt' and P.kind != 'lambda':
+                    outer_ret = q
+                    # the return statement must sit in the same block, after the call
+                    if not any(x.get('n') == q for x in blk['elems'][i + 1:]):
+                        continue
+                else:
+                    continue
+                self._splice(P, b, i, n, None, None, None, None, L, keep_returns=outer_ret is not None, drop=set(chain + ([outer_ret] if outer_ret else [])))
+                if outer_ret is not None:
+                    ro = P.nodes[outer_ret]
+                    P.nodes[outer_ret] = {'cls': 'NullStmt', 'kids': [], 'loc': ro.get('loc')}
+                self.inlined.append((P.skey, 'lambda invoked in place', P.nloc(n)))
+                return True
+        return False
+
     def _inline_one(self, P):
+        if self._inline_iife(P):
+            return True
         pm = None
         for b, blk in list(P.blocks.items()):
             for i, e in enumerate(blk['elems']):
@@ -188,44 +238,47 @@ class TU:
                 return True
         return False
 
-    def _splice(self, P, b, i, call, h, lockstmt, mparam, marg, L):
+    def _splice(self, P, b, i, call, h, lockstmt, mparam, marg, L, keep_returns=False, drop=frozenset()):
         offL = max(P.nodes) + 1
         mapL = lambda x: (x + offL) if x else x
         for nid, o in L.nodes.items():
             no = self._remap_node(o, mapL)
-            if no['cls'] == 'ReturnStmt':
+            if no['cls'] == 'ReturnStmt' and not keep_returns:
                 no['cls'] = 'NullStmt'
             P.nodes[nid + offL] = no
         offH = max(P.nodes) + 1
-        sub = [lockstmt] + h.descendants(lockstmt)
-        mapH = lambda x: marg if x == mparam else ((x + offH) if x else x)
-        for nid in sub:
-            if nid == mparam:
-                continue
-            P.nodes[nid + offH] = self._remap_node(h.nodes[nid], mapH)
-        lockvar = h.nodes[lockstmt]['decls'][0]
+        sub = []
         dtor = None
-        for hb in h.blocks.values():
-            for he in hb['elems']:
-                if he['k'] == 'autodtor' and he.get('var') == lockvar['id']:
-                    dtor = dict(he)
+        if h is not None:
+            sub = [lockstmt] + h.descendants(lockstmt)
+            mapH = lambda x: marg if x == mparam else ((x + offH) if x else x)
+            for nid in sub:
+                if nid == mparam:
+                    continue
+                P.nodes[nid + offH] = self._remap_node(h.nodes[nid], mapH)
+            lockvar = h.nodes[lockstmt]['decls'][0]
+            for hb in h.blocks.values():
+                for he in hb['elems']:
+                    if he['k'] == 'autodtor' and he.get('var') == lockvar['id']:
+                        dtor = dict(he)
         offB = max(P.blocks) + 1
         mapB = lambda x: (x + offB) if x is not None else None
         tail = offB + max(L.blocks) + 1
         B = P.blocks[b]
         T = {k: v for k, v in B.items() if k != 'elems'}
         T['id'] = tail
-        T['elems'] = B['elems'][i + 1:]
+        T['elems'] = [x for x in B['elems'][i + 1:] if x.get('n') not in drop]
         T['succ'] = list(B['succ'])
         P.blocks[tail] = T
         lock_elems = []
-        subset = set(sub) - {mparam}
-        for hb_id in sorted(h.blocks, reverse=True):
-            for he in h.blocks[hb_id]['elems']:
-                if he['k'] == 'stmt' and he.get('n') in subset:
-                    lock_elems.append({'k': 'stmt', 'n': he['n'] + offH})
-        if not any(x['n'] == lockstmt + offH for x in lock_elems):
-            lock_elems.append({'k': 'stmt', 'n': lockstmt + offH})
+        if h is not None:
+            subset = set(sub) - {mparam}
+            for hb_id in sorted(h.blocks, reverse=True):
+                for he in h.blocks[hb_id]['elems']:
+                    if he['k'] == 'stmt' and he.get('n') in subset:
+                        lock_elems.append({'k': 'stmt', 'n': he['n'] + offH})
+            if not any(x['n'] == lockstmt + offH for x in lock_elems):
+                lock_elems.append({'k': 'stmt', 'n': lockstmt + offH})
         B['elems'] = B['elems'][:i] + lock_elems
         for kk in ('cond', 'fullcond', 'term', 'termcls'):
             B.pop(kk, None)
@@ -260,6 +313,12 @@ class TU:
         for kls in self.lambdas_of.values():
             if L in kls:
                 kls.remove(L)
+        moved = self.lambdas_of.pop(L.id, [])
+        if moved:
+            self.lambdas_of.setdefault(P.id, [])
+            self.lambdas_of[P.id] = sorted(self.lambdas_of[P.id] + moved, key=lambda g: g.locpos())
+            for k, g in enumerate(self.lambdas_of[P.id]):
+                g.lambda_index = k + 1
         self.by_key[L.skey] = [g for g in self.by_key.get(L.skey, []) if g is not L]
         for attr in ('_parent', '_pos', '_preds', '_dom', '_pdom', '_reach', '_decl_of_var'):
             setattr(P, attr, None)
@@ -428,6 +487,52 @@ class TU:
 
     def fns_named(self, skey):
         return self.by_key.get(skey, [])
+
+    def lock_guard_classes(self):
+        """Classes that behave like std::lock_guard, whatever they are called (a hand-written RAII struct of the library): every user-written
+        constructor takes the mutex by reference, binds a reference member to it and calls lock() on that member exactly once on every
+        path; the destructor calls unlock() on the same member exactly once; nothing else touches it. {short class key: member name}."""
+        if getattr(self, '_lgc', None) is not None:
+            return self._lgc
+        from .effects import writes
+        from .paths import path
+        res = {}
+        self._lgc = {}
+        by_cls = defaultdict(list)
+        for f in self.fns:
+            if f.kind in ('ctor', 'dtor', 'method', 'operator') and not f.d.get('implicit') and not f.d.get('defaulted') and not f.cls.startswith('std::'):
+                by_cls[f.cls].append(f)
+        for cls, fs in by_cls.items():
+            ctors = [f for f in fs if f.kind == 'ctor']
+            dtors = [f for f in fs if f.kind == 'dtor']
+            if not ctors or not dtors or len(fs) != len(ctors) + len(dtors):
+                continue
+            member = None
+            ok = True
+            for f in ctors:
+                ws = [w for w in writes(f) if w['how'] in ('++', '--', 'assign', '+=', '-=') or w['how'].startswith('call:')]
+                if len(f.params) != 1 or f.params[0].get('pass') != 'lref' or len(ws) != 1 or ws[0]['how'] != 'call:lock' or len(ws[0]['path']) != 2 \
+                        or ws[0]['path'][0] != 'this' or not f.pos_postdominates(ws[0]['pos'], (f.entry, 0)):
+                    ok = False
+                    break
+                m = ws[0]['path'][1][1:]
+                inits = [i for i in f.d.get('inits', []) if i.get('member') == m]
+                t = self.type(inits[0].get('t')) if inits else None
+                n = inits[0].get('n') if inits else None
+                if not (t and t['ref'] == 1 and n and path(f, n) and path(f, n)[0].startswith('v:') and len(path(f, n)) == 1) or member not in (None, m):
+                    ok = False
+                    break
+                member = m
+            if not ok or member is None:
+                continue
+            for f in dtors:
+                ws = [w for w in writes(f) if w['how'] in ('++', '--', 'assign', '+=', '-=') or w['how'].startswith('call:')]
+                if len(ws) != 1 or ws[0]['how'] != 'call:unlock' or ws[0]['path'] != ('this', '.' + member) or not f.pos_postdominates(ws[0]['pos'], (f.entry, 0)):
+                    ok = False
+            if ok:
+                res[cls] = member
+        self._lgc = res
+        return res
 
     def counter_guard_classes(self):
         """Classes that behave like eventpp::internal_::CounterGuard, whatever they are called and wherever they are declared (a local
